@@ -71,30 +71,45 @@ def check_encode(ctx: Ctx, fi: FuncInfo):
     leaf_b = [r for r in rets if isinstance(r.value, ast.IfExp) and norm(r.value.body) == "'1'" and norm(r.value.orelse) == "'0'" and norm(r.value.test) == val]
     ctx.check(len(leaf_b) == 1, "OR-FLOW", vt, "a bool contributes '1' iff true", "", "", vt.node)
     # tuple branch: forward zip over element types and values, appended in order
-    loops = [l for l in q.for_loops(vt.node) if isinstance(l.iter, ast.Call) and isinstance(l.iter.func, ast.Name) and l.iter.func.id == "zip"]
-    if len(loops) != 1:
+    def zip_walks(root):
+        """(zip call, target, recursive calls, in-order accumulation?) for every walk over a zip(...): a for loop that
+        appends to one accumulator, or a generator / list comprehension handed to ''.join (both keep the order)"""
+        out = []
+        for l in q.for_loops(root):
+            if isinstance(l.iter, ast.Call) and isinstance(l.iter.func, ast.Name) and l.iter.func.id == "zip":
+                acc = [s_ for s_ in ast.walk(l) if isinstance(s_, ast.AugAssign) and isinstance(s_.op, ast.Add)]
+                out.append((l.iter, l.target, [c for c in q.calls(l) if norm(c.func) == "val_to_bin"], len(acc) == 1 and isinstance(acc[0].target, ast.Name), l))
+        for n in walk_no_nested(root):
+            if isinstance(n, (ast.GeneratorExp, ast.ListComp)) and len(n.generators) == 1 and not n.generators[0].ifs:
+                g = n.generators[0]
+                if isinstance(g.iter, ast.Call) and isinstance(g.iter.func, ast.Name) and g.iter.func.id == "zip":
+                    par = vt.pm.get(n) if any(x is n for x in ast.walk(vt.node)) else fi.pm.get(n)
+                    joined = isinstance(par, ast.Call) and isinstance(par.func, ast.Attribute) and par.func.attr == "join" and isinstance(par.func.value, ast.Constant) and par.func.value.value == ""
+                    out.append((g.iter, g.target, [c for c in q.calls(n.elt) if norm(c.func) == "val_to_bin"] + ([n.elt] if isinstance(n.elt, ast.Call) and norm(n.elt.func) == "val_to_bin" and False else []), joined, n))
+        return out
+
+    walks = zip_walks(vt.node)
+    if len(walks) != 1:
         raise AnchorError(vt.short, "tuple branch loop not found")
-    l = loops[0]
-    za = [norm(a) for a in l.iter.args]
-    ok = za == [f"get_args({argt})", val] and isinstance(l.target, ast.Tuple)
+    zc, ztarget, rec, in_order, l = walks[0]
+    za = [norm(a) for a in zc.args]
+    ok = za == [f"get_args({argt})", val] and isinstance(ztarget, ast.Tuple)
     ctx.check(ok, "OR-SEQ", vt, "element types and element values paired forward", str(za), f"zip arguments {za}", l)
-    a, i = (norm(e) for e in l.target.elts)
-    rec = [c for c in q.calls(l) if norm(c.func) == "val_to_bin"]
-    acc = [s for s in ast.walk(l) if isinstance(s, ast.AugAssign) and isinstance(s.op, ast.Add)]
-    ok = len(rec) == 1 and [norm(x) for x in rec[0].args] == [a, i] and len(acc) == 1 and isinstance(acc[0].target, ast.Name)
+    a, i = (norm(e) for e in ztarget.elts)
+    ok = len(rec) == 1 and [norm(x) for x in rec[0].args] == [a, i] and in_order
     ctx.check(ok, "OR-SEQ", vt, "elements encoded recursively and appended in order", "", "nested elements are not encoded with their own type and appended left to right (a prepend or a swapped recursion re-orders the bits)", l)
     # top level
     o = Orient(fi, {**c09.sigs_for(False), "val_to_bin": Sig({"argt": "ANY", "val": "ANY"}, "LE")}, {}).run()
     for iss in o.issues:
         ctx.fail(iss.rule, fi, "encode_input", iss.msg, iss.node)
     c09.expect_ret(ctx, fi, o, "BE", "encode_input")
-    top = [l2 for l2 in q.for_loops(fi.node) if isinstance(l2.iter, ast.Call) and isinstance(l2.iter.func, ast.Name) and l2.iter.func.id == "zip"]
-    ok = len(top) == 1 and [norm(a_) for a_ in top[0].iter.args] == ["self.args", fi.node.args.vararg.arg if fi.node.args.vararg else "?"]
+    top = [w for w in zip_walks(fi.node) if not any(x is w[4] for x in ast.walk(vt.node))]
+    ok = len(top) == 1 and [norm(a_) for a_ in top[0][0].args] == ["self.args", fi.node.args.vararg.arg if fi.node.args.vararg else "?"] and top[0][3]
     ctx.check(ok, "OR-SEQ", fi, "arguments encoded in declaration order", "zip(self.args, qvals)", "", fi.node)
     if top:
-        c = [x for x in q.calls(top[0]) if norm(x.func) == "val_to_bin"]
-        tg = norm(top[0].target.elts[0]) if isinstance(top[0].target, ast.Tuple) else "?"
-        ctx.check(len(c) == 1 and norm(c[0].args[0]) == f"{tg}.ttype", "OR-SEQ", fi, "each argument encoded with its declared type", "", "", top[0])
+        c = top[0][2]
+        tg = norm(top[0][1].elts[0]) if isinstance(top[0][1], ast.Tuple) else "?"
+        ctx.check(len(c) == 1 and norm(c[0].args[0]) == f"{tg}.ttype", "OR-SEQ", fi, "each argument encoded with its declared type", "", "", top[0][4])
 
 
 def check_decode(ctx: Ctx):
@@ -121,25 +136,50 @@ def check_decode(ctx: Ctx):
     side = pads[0].lay.split(":")[0]
     ctx.check(side == "FRONTPAD", "OR-EXT", fo, "short readings are zero-extended on the most-significant side", "zeros in front of an MSB-first reading", "format_outcome appends zeros AFTER the reading, but every caller (interpret_as_qtype, decode_output) passes a measurement-order, MSB-first reading: the value is multiplied by a power of two instead of being widened (decode_output(1) on a 2-bit result reads 2)", fo.node)
     # string -> list keeps order; int -> MSB-first digits
-    txt = norm(fo.node)
-    ctx.check("for c in out" in txt and "str(bin(out))[2:]" in txt, "OR-FLOW", fo, "strings and ints are read digit by digit, MSB first", "", "", fo.node)
+    p0 = fo.params[0]
+    digit_walks = []
+    for n in ast.walk(fo.node):
+        if isinstance(n, (ast.ListComp, ast.GeneratorExp)) and len(n.generators) == 1 and any(isinstance(x, ast.Constant) and x.value == "1" for x in ast.walk(n.elt)):
+            core, par = q.reversal_parity(n.generators[0].iter)
+            if isinstance(core, ast.Name) and core.id == p0:
+                digit_walks.append((n, par))
+    bins = [n for n in ast.walk(fo.node) if isinstance(n, ast.Subscript) and isinstance(n.slice, ast.Slice) and isinstance(n.slice.lower, ast.Constant) and n.slice.lower.value == 2 and n.slice.upper is None and n.slice.step is None and "bin(" in norm(n.value) and p0 in q.names_in(n.value)]
+    if len(digit_walks) != 1 or len(bins) != 1:
+        ctx.undecided(fo.short, f"OR-FLOW [strings and ints are read digit by digit, MSB first]: {len(digit_walks)} digit-by-digit readings of `{p0}` and {len(bins)} `bin({p0})[2:]` conversions found ({fo.loc(fo.node)})")
+    else:
+        ctx.check(digit_walks[0][1] == 0, "OR-FLOW", fo, "strings and ints are read digit by digit, MSB first", norm(digit_walks[0][0])[:60], f"`{norm(digit_walks[0][0])[:70]}` reads the string back to front: the reading arrives most significant digit first and every caller expects it in that order", digit_walks[0][0])
     dc = repo.func("qcircuit.qcircuitwrapper.QCircuitWrapper.decode_counts")
     ctx.check("self.decode_output(e)" in norm(dc.node) and "counts.items()" in norm(dc.node), "OR-FLOW", dc, "each counts key is decoded by decode_output", "", "", dc.node)
 
 
 def check_translate_argument(ctx: Ctx, fi: FuncInfo):
-    loops = [l for l in q.for_loops(fi.node) if norm(l.iter) == "_elts"]
-    if len(loops) < 2:
-        raise AnchorError(fi.short, f"{len(loops)} tuple traversals found (2 confirmed by hand)")
+    # the loops that flatten a tuple annotation, found by what they do (they contain the recursive call), whichever
+    # way the element index is kept (manual counter or enumerate) and whether the two spellings of Tuple share one loop
+    loops = [l for l in q.for_loops(fi.node, nested=True) if any(norm(c.func) == "translate_argument" for c in q.calls(l))]
+    if len(loops) < 1:
+        raise AnchorError(fi.short, f"{len(loops)} tuple traversals found (a loop over the element annotations with a recursive call)")
     for l in loops:
-        i = norm(l.target)
-        ind = [s for s in l.body if isinstance(s, ast.AugAssign) and isinstance(s.op, ast.Add) and isinstance(s.value, ast.Constant) and s.value.value == 1]
+        it = l.iter
+        tgt = l.target
+        idx = None
+        if isinstance(it, ast.Call) and isinstance(it.func, ast.Name) and it.func.id == "enumerate" and it.args and isinstance(tgt, ast.Tuple) and len(tgt.elts) == 2:
+            start = it.args[1] if len(it.args) > 1 else next((k.value for k in it.keywords if k.arg == "start"), None)
+            if start is not None and not (isinstance(start, ast.Constant) and start.value == 0):
+                ctx.fail("OR-SEQ", fi, "tuple elements are numbered from 0", f"`{norm(it)}` numbers the elements from {norm(start)}: the bit names of element k must be base.k.*", l)
+                continue
+            idx, i, it = norm(tgt.elts[0]), norm(tgt.elts[1]), it.args[0]
+        else:
+            i = norm(tgt)
+            ind = [s_ for s_ in l.body if isinstance(s_, ast.AugAssign) and isinstance(s_.op, ast.Add) and isinstance(s_.value, ast.Constant) and s_.value.value == 1]
+            if len(ind) == 1:
+                idx = norm(ind[0].target)
         rec = [c for c in q.calls(l) if norm(c.func) == "translate_argument"]
-        ok = len(ind) == 1 and len(rec) == 1 and norm(rec[0].args[0]) == i and q.reversal_parity(l.iter)[1] == 0
-        idx = norm(ind[0].target) if ind else "?"
-        base_ok = rec and any(k.arg == "base" and f"{{{idx}}}" in norm(k.value) for k in rec[0].keywords)
-        ext = [c for c in q.method_calls(l, "extend")]
-        app = [c for c in q.method_calls(l, "append") if "base" in norm(c)]
+        if idx is None or len(rec) != 1:
+            ctx.undecided(fi.short, f"OR-SEQ [tuple elements flattened forward]: the element loop at line {l.lineno} keeps no index the tables describe (manual counter or enumerate) or makes {len(rec)} recursive calls")
+            continue
+        ok = norm(rec[0].args[0]) == i and q.reversal_parity(it)[1] == 0
+        base_ok = any(k.arg == "base" and f"{{{idx}}}" in norm(k.value) for k in rec[0].keywords) or (len(rec[0].args) > 2 and f"{{{idx}}}" in norm(rec[0].args[2]))
+        ext = [c for c in q.method_calls(l, "extend")] + [s_ for s_ in ast.walk(l) if isinstance(s_, ast.AugAssign) and isinstance(s_.op, ast.Add) and "bitvec" in norm(s_.value)]
         ctx.check(ok and base_ok and len(ext) == 1 and "bitvec" in norm(ext[0]), "OR-SEQ", fi, f"tuple elements flattened forward (loop at line {l.lineno - fi.node.lineno})", "index advances once per element; element bits extend the list in order", "the bit names of a nested tuple are not accumulated element by element, left to right, under base.<index>", l)
     # leaf: Qtype -> base.0 .. base.(n-1)
     leaf = [n for n in walk_no_nested(fi.node) if isinstance(n, ast.ListComp) and "BIT_SIZE" in norm(n)]
